@@ -305,6 +305,11 @@ func (hs *serverHandshakeStateGM) checkForResumption() bool {
 	if sessionHasClientCerts && c.config.ClientAuth == NoClientCert {
 		return false
 	}
+	// Client certificates that no longer verify under the current
+	// configuration: do not resume, perform a full handshake instead.
+	if sessionHasClientCerts && !c.sessionCertsAcceptable(hs.sessionState.certificates) {
+		return false
+	}
 
 	return true
 }
